@@ -267,7 +267,7 @@ type reproFile struct {
 	Size     int               `json:"size"`
 	Input    string            `json:"input_b64,omitempty"`
 	SeedFile string            `json:"seed_file,omitempty"` // inputs > 64 KiB: the functest file to apply Mutation to
-	Bin      string            `json:"bin,omitempty"` // file under repro/ holding the input (shared between keys with identical input)
+	Bin      string            `json:"bin,omitempty"`       // file under repro/ holding the input (shared between keys with identical input)
 	Desc     string            `json:"desc"`
 }
 
@@ -1037,6 +1037,17 @@ func runawaySite(stderr string) (top string, frames []string, msg string) {
 		return "", nil, rest
 	}
 	msg = rest[:nl]
+	if i := strings.Index(msg, " site="); i >= 0 {
+		f := strings.SplitN(msg[i+6:], " frames=", 2)
+		msg = msg[:i]
+		if f[0] != "" {
+			top = f[0]
+			if len(f) == 2 {
+				frames = strings.Split(f[1], "<")
+			}
+			return
+		}
+	}
 	for _, blk := range strings.Split(rest[nl+1:], "\n\n") {
 		if strings.Contains(blk, "main.(*wctx).guard") {
 			top, frames = parseStack(blk)
